@@ -675,7 +675,7 @@ func sameSet(a []int64, b ...int64) bool {
 }
 
 func ruleSextet(c *Ctx) *RuleResult {
-	r := &RuleResult{Rule: "SEXTET", Doc: "bit-packing constants of the four codecs: 6 bits per byte, most significant first (5 - position), offset 63, byte range [63,126] checked before any decoding, k = 64 - LeadingZeros64(n-1)", MinInst: 12}
+	r := &RuleResult{Rule: "SEXTET", Doc: "bit-packing constants of the four codecs: 6 bits per byte, most significant first (5 - position), offset 63, byte range [63,126] checked before any decoding, k = 64 - LeadingZeros64(n-1)", MinInst: 8}
 	role := func(fnName, what string, got []int64, want ...int64) {
 		r.inst("%s: %s = %v", fnName, what, got)
 		if len(got) == 0 {
